@@ -66,8 +66,16 @@ def bulk_schedules():
     return out
 
 
-def flood_and_bulk():
-    return flood_schedules() + bulk_schedules()
+def bulk_fault_schedules():
+    """the same with a break and re-open of the OTHER target stream first (C04 judges 'early' only in runs with a fault)."""
+    out = []
+    for sc in bulk_schedules():
+        owner = sc["route"]["1"][0]
+        other = 3 - owner
+        sc["id"] = sc["id"].replace("bulk-", "bulk-f-")
+        sc["cmds"] = [{"c": "breaktgt", "t": other}, {"c": "reopentgt", "t": other}] + sc["cmds"]
+        out.append(sc)
+    return out
 
 
 PROFILES = {
@@ -89,20 +97,22 @@ PROFILES = {
                               post=["drain"]),
     ("C03", "quick"): dict(design=[("c01.cfg", 300)], tick=[("tick.cfg", 600), ("tick_2s.cfg", 600)],
                            gen=[("sim_c01.cfg", "bfs", 1, 2, [], 600), ("sim_c01_t.cfg", ("sim", 80, 60), 2, 2, [], 300),
-                                ("sim_c03.cfg", ("sim", 1500, 80), 1, 2, [], 300)],
+                                ("sim_c03.cfg", ("sim", 1500, 80), 1, 2, [], 300),
+                                ("sim_c03i.cfg", ("sim", 1500, 80), 1, 2, [], 120)],
                            extra=flood_schedules,
                            post=["drain", "tick", "tick", "tick", "tick", "final"]),
     ("C03", "thorough"): dict(design=[("c01_t1.cfg", 2400), ("c02b_q.cfg", 1200)],
                               tick=[("tick.cfg", 900), ("tick_slow.cfg", 1800), ("tick_2s.cfg", 1800)],
                               gen=[("sim_c01.cfg", "bfs", 1, 2, [], 12000), ("sim_c02b.cfg", "bfs", 2, 2, [], 6000),
                                    ("sim_c01_t.cfg", ("sim", 500, 60), 2, 2, [], 6000),
-                                   ("sim_c03.cfg", ("sim", 6000, 80), 1, 2, [], 4000)],
+                                   ("sim_c03.cfg", ("sim", 6000, 80), 1, 2, [], 4000),
+                                   ("sim_c03i.cfg", ("sim", 6000, 80), 1, 2, [], 2000)],
                               extra=flood_schedules,
                               post=["drain", "tick", "tick", "tick", "tick", "final"]),
-    ("C04", "quick"): dict(design=[("c04_q.cfg", 600)],
+    ("C04", "quick"): dict(extra=bulk_fault_schedules, design=[("c04_q.cfg", 600)],
                            gen=[("sim_c04.cfg", "bfs", 1, 2, [], 600), ("sim_c04s.cfg", "bfs", 1, 2, [], 250),
                                 ("sim_c04h.cfg", "bfs", 1, 2, [], 300, hold_filter)]),
-    ("C04", "thorough"): dict(design=[("c04.cfg", 2400), ("c04s.cfg", 2400), ("c04_t1.cfg", 5400)],
+    ("C04", "thorough"): dict(extra=bulk_fault_schedules, design=[("c04.cfg", 2400), ("c04s.cfg", 2400), ("c04_t1.cfg", 5400)],
                               gen=[("sim_c04.cfg", "bfs", 1, 2, [], 12000), ("sim_c04s.cfg", "bfs", 1, 2, [], 3000),
                                    ("sim_c04h.cfg", "bfs", 1, 2, [], 4000, hold_filter),
                                    ("sim_c04_t.cfg", ("sim", 300, 70), 2, 2, [], 3000)]),
